@@ -206,6 +206,7 @@ type Exec struct {
 	lastSpecState *State
 	lastPreserved [2]Value
 	lastPreservedSt *State
+	topFrame *Frame
 	recActive     map[*ssa.Function]string
 	recDone       map[string]bool
 	recParams     []Value
@@ -232,6 +233,8 @@ type Frame struct {
 	asserted  map[*Clause]bool
 	entryNext *Term // allocation counter when the function was entered
 	unrolling map[*ssa.BasicBlock]*[]incoming
+	modTargetsCache []modTarget
+	modTargetsDone  bool
 }
 
 type retInfo struct {
